@@ -5,10 +5,11 @@ import Corankco.Driver.C19
 import Corankco.Driver.C20
 import Corankco.Driver.Algos
 import Corankco.Driver.Bio
+import Corankco.Driver.Partition
 open Corankco
 
 def allOps : List (String × (J → Option J)) :=
-  Driver.c01Ops ++ Driver.c02Ops ++ Driver.c19Ops ++ Driver.c20Ops ++ Driver.algosOps ++ Driver.bioOps
+  Driver.c01Ops ++ Driver.c02Ops ++ Driver.c19Ops ++ Driver.c20Ops ++ Driver.algosOps ++ Driver.bioOps ++ Driver.partOps
 
 def handle (line : String) : String :=
   let line := line.trimAscii.toString
